@@ -8,11 +8,11 @@ CHECKS = {
         'error carrying the value, nil included, never escaping; errors listed by pkg/errors cause -> success; Ack before the call; delay keys only, successes '
         'untouched); for every chain and script the message context after the call is the context before; Retry around any chain of them makes the same '
         'number of attempts as the bare Retry; the DelayOnError schedule min(Initial*(num/den)^(k-1), Max) for rational multipliers >= 1 (closed form where '
-        'the products are whole ns, per-step law and bounds otherwise); Throttle starts spaced by the period over a ticker clock model. The two defects '
+        'the products are whole ns, per-step law and bounds otherwise); Throttle starts spaced by the period over a ticker clock model, for every assignment of live / ended / ending message contexts. The two defects '
         '(D2 multiplier truncated, D3 Timeout leaves the context cancelled) are _refuted theorems for the pinned variant and repaired by two fix: commits. '
         'Tied to the code on every run: ~1250 cases of random chains of the REAL middlewares (alone, stacked, under the real Retry; one chain value shared by '
         '1/2/4 messages in flight; 1..8 invocations on the same message) around scripted handlers, compared with the model on everything observable and judged '
-        'by the clause-wise acceptor; Throttle start times judged by the spacing predicate of the theorem.'),
+        'by the clause-wise acceptor; Throttle start times (messages with live, already ended and ending-while-waiting contexts, alone and interleaved through one value) judged by the spacing predicate of the theorem.'),
   note=('Trusted: Coq kernel + vm_compute; Go defer/recover, context cancellation/deadline, time.Ticker, gobreaker (closed), pkg/errors as modelled; the Go harness '
         '(scripted handler, pointer/identity decoding, canonicalisation of delay metadata) and checks/c19.py. Partial: Throttle rate on the implementation is a '
         'wall-clock lower bound with one period of slack; IEEE rounding excluded by dyadic multipliers; "the model passes the acceptor for every chain" is checked per case, '
